@@ -273,7 +273,14 @@ def check_fold(ctx, F, rule, name, fold, adt=MT):
         folds = [x for x in subterms(r) if x[0] == "call" and x[1].startswith("core::iter::traits::iterator::Iterator::")
                  and x[1].split("::")[-1] in ("min_by", "max_by", "max", "min", "fold", "reduce", "min_by_key", "max_by_key")]
         if not folds:
-            # the empty-list default
+            # the empty-list default: 0.0 for delay / duration, Repeat::None for repeat (a finite, neutral value - not the
+            # seed of a fold)
+            if pse.is_const(r) or pse.unit_variant(r) is not None:
+                okd = (pse.is_const(r) and isinstance(r[2], tuple) and r[2][0] == "f" and r[2][2] == 0.0) or \
+                    (pse.unit_variant(r) is not None and pse.unit_variant(r)[1] == "None")
+                ctx.ob(rule, inst + "/empty-default", okd,
+                       "a merged timeline without components reports %s = 0.0 (Repeat::None for repeat); it reports %s"
+                       % (name, show(r)), body["span"], trace_of(p), what="empty-default-wrong")
             continue
         n += 1
         f = folds[0]
@@ -488,12 +495,13 @@ def _step_selects(p_conds, events, cur, cand, new, fold):
 
 def _identity_seed(t, name, fold):
     """the seed is the least element of the order for a maximum (the greatest for a minimum): it never survives a component"""
+    # (an infinite f32 seed would be an identity as well, but it is also what an empty list would then report - not 0.0)
     if fold in ("max", "max_by"):
         uv = pse.unit_variant(t)
         if name == "repeat" and uv is not None and uv[1] == "None":
-            return True         # Repeat::None is the least Repeat (ordinal 0; the order itself is C12/R3 `Repeat::cmp`)
-        return intervals_fval(t) == float("-inf")
-    return intervals_fval(t) == float("inf")
+            return True         # Repeat::None is the least Repeat (ordinal 0; the order itself is C12/R3 `Repeat::cmp`) and
+            #                     the documented result for the empty list
+    return False
 
 
 def intervals_fval(t):
@@ -570,17 +578,27 @@ def _fold_select_form(ctx, F, rule, name, fold, body, vec, tf):
             continue
         f = fs[0]
         src, init, clo = f[2]
-        ctx.ob(rule, inst + "/all-components", ordered_source(src, vec),
+        mapped = src[0] == "call" and src[1].endswith("Iterator::map") and ordered_source(src[2][0], vec)
+        ctx.ob(rule, inst + "/all-components", ordered_source(src, vec) or mapped,
                "the fold must range over all components of self.%s in order; ranges over %s" % (tf, show(src)[:200]),
                body["span"], trace_of(p), what="fold-not-over-all-components")
+        if mapped:
+            mapper_is(ctx, F, rule, inst, src[2][1], name, body["span"])
+        optional = init[0] == "agg" and init[3] == "None"
+        ctx.ob(rule, inst + "/fold-seed", optional or _identity_seed(init, name, fold),
+               "the fold must start empty (None) or from the order's %s element that is also the documented result for an "
+               "empty list; it starts as %s" % ("least" if fold != "min_by" else "greatest", show(init)[:120]), body["span"],
+               what="fold-init-wrong")
+        if mapped and clo[0] == "fn" and clo[2].split("::")[-1] in ("min", "max") and "f32" in clo[2]:
+            # fold(seed, f32::min) / fold(seed, f32::max) over the mapped values
+            ctx.ob(rule, inst + "/selects", (clo[2].split("::")[-1] == "min") == (fold == "min_by"),
+                   "merged %s must keep the %s value; the step is %s" % (name, "smaller" if fold == "min_by" else "greater", clo[2]),
+                   body["span"], trace_of(p), what="fold-kind-wrong")
+            return 1
         cb = eng.closure_body(clo)
         if cb is None:
             ctx.ob(rule, inst + "/step-shape", False, "the fold's step is not a closure literal", body["span"], what="fold-step-unknown")
             return 1
-        optional = init[0] == "agg" and init[3] == "None"
-        ctx.ob(rule, inst + "/fold-seed", optional or _identity_seed(init, name, fold),
-               "the fold must start empty (None) or from the order's %s element; it starts as %s"
-               % ("least" if fold != "min_by" else "greatest", show(init)[:120]), body["span"], what="fold-init-wrong")
         sp = [q for q in pse.Engine(F, inline=inl).run(cb) if q.outcome == "return"]
         ctx.count_paths(sp, cb)
         accp, itemp = ("param", 2), ("param", 3)
